@@ -121,6 +121,42 @@ def all_sources():
                         yield rel, strip_comments_and_tests(open(os.path.join(root, f), encoding="utf-8").read())
 
 
+def _impl_body(s, trait, ty, fn):
+    """normalised body of `fn` in `impl [path::]trait for ty`, or "" """
+    m = re.search(r"\bimpl\s+(?:[\w:]+::)?%s\s+for\s+%s\s*\{" % (trait, ty), s)
+    if not m:
+        return ""
+    depth = 1
+    j = m.end()
+    while j < len(s) and depth:
+        depth += {"{": 1, "}": -1}.get(s[j], 0)
+        j += 1
+    block = s[m.end():j - 1]
+    m2 = re.search(r"\bfn\s+%s\b[^{]*\{" % fn, block)
+    if not m2:
+        return "?"
+    depth = 1
+    k = m2.end()
+    while k < len(block) and depth:
+        depth += {"{": 1, "}": -1}.get(block[k], 0)
+        k += 1
+    return re.sub(r"\s+", " ", block[m2.end():k - 1]).strip()
+
+
+def hand_written_eq_hash():
+    rows = []
+    for rel, s in all_sources():
+        tys = set(re.findall(r"\bimpl\s+(?:[\w:]+::)?(?:PartialEq|Hash|Ord)\s+for\s+(\w+)", s))
+        for ty in sorted(tys):
+            m = re.search(r"((?:#\[[^\]]*\]\s*)*)pub\s+(?:struct|enum)\s+%s\b" % ty, s)
+            derives = ""
+            if m:
+                derives = ",".join(sorted(x.strip() for d in re.findall(r"derive\(([^)]*)\)", m.group(1)) for x in d.split(",") if x.strip()))
+            rows.append((rel, ty, derives, _impl_body(s, "PartialEq", ty, "eq"), _impl_body(s, "Ord", ty, "cmp"),
+                         _impl_body(s, "Hash", ty, "hash")))
+    return rows
+
+
 def generate():
     sites = []
     # names bound to a hash container anywhere (values flow between files through struct fields)
@@ -152,6 +188,7 @@ def generate():
                     found.append((m.start(), m.group(1)))
                 for pos, nm in sorted(set(found)):
                     sites.append((rel, enclosing_fn(s, pos), nm, statement_at(s, pos)))
+    key_types = hand_written_eq_hash()
     out = ["(* GENERATED by tools/gens/gen_hashsites.py -- do not edit *)",
            "From Coq Require Import String List.",
            "Import ListNotations.",
@@ -164,5 +201,11 @@ def generate():
         st = st.replace('"', "'")
         rows.append('  ("%s", "%s", "%s", "%s")' % (rel, fn, nm, st))
     out.append(";\n".join(rows))
+    out.append("].")
+    out.append("")
+    out.append("(* every type with a hand-written PartialEq / Ord / Hash impl: (file, type, derives, eq body, ord body, hash body);")
+    out.append("   a key type whose Eq is coarser than its Hash makes HashMap lookups miss at random *)")
+    out.append("Definition key_types : list (string * string * string * string * string * string) := [")
+    out.append(";\n".join('  ("%s", "%s", "%s", "%s", "%s", "%s")' % tuple(x.replace('"', "'") for x in kt) for kt in key_types))
     out.append("].")
     return "GenHashSites.v", "\n".join(out) + "\n"
